@@ -5,6 +5,7 @@ gen_zoo(rng) -> (modname, files, entities, known_sections)
   symbol of the llgo binary under the name the Coq model computes.
 gen_f10(rng) -> (modname, files, entities)   the dotted-last-path-element pair (DESIGN F10)
 """
+import re
 from vlib import coq_bytes as S
 
 # ---------- Coq term builders (grammar of C07.Model.ty / C14.Model.entity) ----------
@@ -60,6 +61,7 @@ def gen_zoo(rng, idx=0):
                      .replace("@T@", T).replace("@M@", M).replace("@P@", P))
     files = {
         da + "/a.go": sub(A_GO), db + "/b.go": sub(B_GO), dc + "/c.go": sub(C_GO),
+        da + "/model/model.go": MODEL_A_GO, db + "/model/model.go": MODEL_B_GO,
         "aa_local.go": sub(LOCAL_GO), "main.go": sub(MAIN_GO),
     }
     E = []
@@ -109,7 +111,7 @@ def gen_zoo(rng, idx=0):
     for (isptr, m) in [(False, M), (True, M), (True, P)]:
         add("main.%sT.%s" % ("*" if isptr else "", m), core(emeth(PM, isptr, T, (), m)))
     add("main.main", core(efunc(PM, "main")))
-    for i in (1, 2, 3):
+    for i in (1, 2, 3, 4):
         add("main.main$%d" % i, core(efunc(PM, "main", [i])))
     add("main.gofn", core(efunc(PM, "gofn")))
     add("main.glob", core(eglobal(PM, "glob")))
@@ -154,7 +156,22 @@ def gen_zoo(rng, idx=0):
         add("%s: a.G[int].Get$bound" % lab, core(ewrap(cp, "bound", PA, False, "G", [INT], "Get")))
         add("%s: (*a.G[int]).Set$thunk" % lab, core(ewrap(cp, "thunk", PA, True, "G", [INT], "Set")))
         add("%s: a.G[int].Get$thunk" % lab, core(ewrap(cp, "thunk", PA, False, "G", [INT], "Get")))
+    # type arguments from two packages with one package NAME (<a>/model, <b>/model), from c and main
+    iA, iB = named(PA + "/model", "Item"), named(PB + "/model", "Item")
+    for lab, ta in (("a/model.Item", iA), ("b/model.Item", iB)):
+        add("a.Size[%s]" % lab, core(efunc(PA, "Size", (), [ta])), "inst")
+        add("a.Box[%s]" % lab, core(efunc(PA, "Box", (), [ta])), "inst")
+        add("a.G[%s].Get" % lab, core(emeth(PA, False, "G", [ta], "Get")), "inst")
+        add("a.(*G[%s]).Set" % lab, core(emeth(PA, True, "G", [ta], "Set")), "inst")
+        add("a.(*G[%s]).Set$1" % lab, core(emeth(PA, True, "G", [ta], "Set", [1])), "inst")
+    add("a.Box[int]", core(efunc(PA, "Box", (), [INT])), "inst")
+    add("c.ModelUse", core(efunc(PC, "ModelUse")))
+    add("main.sum", core(efunc(PM, "sum")))
     params = {"mod": mod, "dirs": [da, db, dc], "T": T, "M": M, "P": P}
+    # type descriptors of the type box declared inside the generic function Box: one per instantiation
+    # (cl/compile.go localNamedName / typeArgName; the position suffix .p<digits> varies between builds)
+    params["local_descriptors"] = {"regex": r"^\*?_llgo_" + re.escape(PA) + r"\.box\[(.*)\]\u00b7\d+\.p\d+$",
+                                   "want": sorted([PA + "/model.Item", PB + "/model.Item", "int"])}
     return mod, files, E, params
 
 
@@ -227,6 +244,14 @@ func Map[X, Y any](x X, f func(X) Y) Y {
 }
 
 func Size[X any](v X) int { return int(unsafe.Sizeof(v)) }
+
+// Box puts v into a value of a type local to this instantiation and reports whether probe
+// holds a value of exactly that local type
+func Box[X any](v X, probe any) (any, bool) {
+	type box struct{ V X }
+	_, ok := probe.(box)
+	return box{v}, ok
+}
 
 func LF[X any](x X) {
 	type L struct{ v X }
@@ -311,8 +336,22 @@ C_GO = '''package @DC@
 
 import (
 	"@MOD@/@DA@"
+	amodel "@MOD@/@DA@/model"
 	"@MOD@/@DB@"
+	bmodel "@MOD@/@DB@/model"
 )
+
+func ModelUse() (any, any) {
+	println("c.ModelUse", @DA@.Size(amodel.Item{}), @DA@.Size(bmodel.Item{}))
+	ga := @DA@.G[amodel.Item]{}
+	ga.Set(amodel.Item{ID: 11})
+	gb := @DA@.G[bmodel.Item]{}
+	gb.Set(bmodel.Item{ID: 12, Tag: "c"})
+	println(ga.Get().ID, gb.Get().ID, gb.Get().Tag)
+	x, _ := @DA@.Box(amodel.Item{ID: 7}, nil)
+	y, _ := @DA@.Box(bmodel.Item{ID: 7}, nil)
+	return x, y
+}
 
 func BoxUse() int {
 	println("c.BoxUse")
@@ -363,9 +402,19 @@ import (
 	"@MOD@/@DA@"
 	"@MOD@/@DB@"
 	"@MOD@/@DC@"
+	amodel "@MOD@/@DA@/model"
+	bmodel "@MOD@/@DB@/model"
 )
 
 type @T@ struct{ N int }
+
+func sum(xs ...int) int {
+	n := 0
+	for _, x := range xs {
+		n += x
+	}
+	return n
+}
 
 func BoxUse() int {
 	println("main.BoxUse")
@@ -430,12 +479,52 @@ func main() {
 	println(@DA@.Map("s", func(x string) [2]@T@ { println("main.main$2"); return [2]@T@{{N: 8}} })[0].N)
 	println("=== generic-shared")
 	println(@DB@.BoxUse(), @DC@.BoxUse(), BoxUse())
+	println("=== same-pkgname")
+	{
+		xa, _ := @DA@.Box(amodel.Item{ID: 7}, nil)
+		xb, _ := @DA@.Box(bmodel.Item{ID: 7}, nil)
+		xi, _ := @DA@.Box(7, nil)
+		_, aIsA := @DA@.Box(amodel.Item{}, xa)
+		_, bIsA := @DA@.Box(amodel.Item{}, xb)
+		_, aIsB := @DA@.Box(bmodel.Item{}, xa)
+		_, bIsB := @DA@.Box(bmodel.Item{}, xb)
+		_, iIsA := @DA@.Box(amodel.Item{}, xi)
+		_, iIsI := @DA@.Box(0, xi)
+		println("box a:", aIsA, bIsA, "box b:", aIsB, bIsB, "box int:", iIsA, iIsI)
+		println("a == b:", xa == xb, "a == a:", xa == xa)
+		ca, cb := @DC@.ModelUse()
+		println("c.a == main.a:", ca == xa, "c.b == main.b:", cb == xb, "c.a == main.b:", ca == xb, "c.b == main.a:", cb == xa)
+		println(@DA@.Size(amodel.Item{}), @DA@.Size(bmodel.Item{}))
+		ga := @DA@.G[amodel.Item]{}
+		ga.Set(amodel.Item{ID: 1})
+		gb := @DA@.G[bmodel.Item]{}
+		gb.Set(bmodel.Item{ID: 2, Tag: "m"})
+		println(ga.Get().ID, gb.Get().ID, gb.Get().Tag)
+	}
+	println("=== variadic")
+	{
+		var fv any = sum
+		var fs any = func(xs []int) int { println("main.main$3"); return len(xs) }
+		_, v1 := fv.(func(...int) int)
+		_, v2 := fv.(func([]int) int)
+		_, s1 := fs.(func(...int) int)
+		_, s2 := fs.(func([]int) int)
+		println(v1, v2, s1, s2, fv.(func(...int) int)(1, 2, 3), fs.(func([]int) int)(nil))
+		for _, f := range []any{fv, fs} {
+			switch f.(type) {
+			case func([]int) int:
+				println("slice")
+			case func(...int) int:
+				println("variadic")
+			}
+		}
+	}
 	println("=== goroutines")
 	c := make(chan int)
 	@DA@.Spawn(c)
 	go gofn(5, c)
 	<-c
-	go func() { println("main.main$3"); c <- 1 }()
+	go func() { println("main.main$4"); c <- 1 }()
 	<-c
 	println("=== wrappers-local")
 	f3 := mt.@M@
@@ -453,6 +542,19 @@ func main() {
 	@DA@.LF(int8(1))
 	@DA@.LF(int64(2))
 	println("=== end")
+}
+'''
+
+MODEL_A_GO = '''package model
+
+type Item struct{ ID int }
+'''
+
+MODEL_B_GO = '''package model
+
+type Item struct {
+	ID  int
+	Tag string
 }
 '''
 
